@@ -374,7 +374,6 @@ def c15(tier):
                     c.samples.append(vlib.pretty_case(e))
                     if len(c.samples) >= 4:
                         break
-    suite_and_validate(c, {"rel"})
     return c.finish(rule="pairs (a, b): schemes equal/different, authorities equal/different/absent, absolute and rootless "
                          "paths of bounded segment count with dot, empty and colon segments, query/fragment; each recorded "
                          "result is one validated event",
